@@ -1703,3 +1703,191 @@ func init() {
 		}
 	})
 }
+
+// ---------------------------------------------------------------- memo tables keyed by a projection
+
+// memoKeyProjection: a map kept in reader/context state or in a package-level variable that one function both consults
+// and fills is a memo table. If the key is a projection of an object (a field of it, or the result of a method called
+// on it: its name, its ID) while the stored value is computed from the object itself, two different objects with equal
+// projections share an entry: the second one is served what was computed for the first (seed C05-1: first-leaf
+// declaration memoised per declaration NAME; two groups of the same name in different branches got each other's leaf).
+// The per-record result cache of the transform package (key: node ID + declaration hash) has its own completeness
+// rule (R13a) and is exempt, recognised by role: the table looked up by the function that R13a resolves as ParseNode.
+func memoKeyProjection(c *core.Ctx, rule string, pkgs []string) {
+	c.SSA()
+	exempt := map[*ssa.Function]bool{}
+	if pn := c.Method("extensions/omniv21/transform", "parseCtx", "ParseNode"); pn != nil {
+		exempt[pn] = true
+		for _, a := range pn.AnonFuncs {
+			exempt[a] = true
+		}
+	}
+	n := 0
+	for _, f := range c.RepoFunctions() {
+		if core.IsCLIOrSample(core.FuncPkg(f)) || !inPkgs(core.FuncPkg(f), pkgs) || exempt[f] {
+			continue
+		}
+		persistent := func(m ssa.Value) (string, bool) {
+			steps, root := core.TraceAddr(m)
+			if g, ok := root.(*ssa.Global); ok {
+				return "package-level variable " + g.Name(), true
+			}
+			for _, s := range steps {
+				if s.Kind == "field" && s.Field != nil {
+					return "field " + s.Field.Name(), true
+				}
+			}
+			return "", false
+		}
+		// lookups of persistent maps in f
+		looked := map[string]bool{}
+		for _, b := range f.Blocks {
+			for _, in := range b.Instrs {
+				if lk, ok := in.(*ssa.Lookup); ok {
+					if _, isMap := lk.X.Type().Underlying().(*types.Map); isMap {
+						if name, ok := persistent(lk.X); ok {
+							looked[name] = true
+						}
+					}
+				}
+			}
+		}
+		if len(looked) == 0 {
+			continue
+		}
+		for _, b := range f.Blocks {
+			for _, in := range b.Instrs {
+				mu, ok := in.(*ssa.MapUpdate)
+				if !ok {
+					continue
+				}
+				name, ok := persistent(mu.Map)
+				if !ok || !looked[name] {
+					continue
+				}
+				n++
+				key := core.FuncKey(f) + " memo table in " + name
+				// the object(s) the key is a projection of
+				var objs []ssa.Value
+				var proj func(v ssa.Value, d int)
+				seenP := map[ssa.Value]bool{}
+				proj = func(v ssa.Value, d int) {
+					if v == nil || seenP[v] || d > 8 {
+						return
+					}
+					seenP[v] = true
+					switch x := v.(type) {
+					case *ssa.Call:
+						cc := x.Call
+						if cc.IsInvoke() {
+							objs = append(objs, cc.Value)
+							return
+						}
+						if cf := cc.StaticCallee(); cf != nil && cf.Signature.Recv() != nil && len(cc.Args) > 0 && len(cc.Args) == 1 {
+							objs = append(objs, cc.Args[0]) // niladic method: a property of its receiver
+							return
+						}
+						for _, a := range cc.Args {
+							proj(a, d+1)
+						}
+					case *ssa.UnOp:
+						if x.Op == token.MUL {
+							if fa, ok := x.X.(*ssa.FieldAddr); ok {
+								objs = append(objs, fa.X)
+								return
+							}
+						}
+						proj(x.X, d+1)
+					case *ssa.Field:
+						objs = append(objs, x.X)
+					case *ssa.BinOp:
+						proj(x.X, d+1)
+						proj(x.Y, d+1)
+					case *ssa.Convert:
+						proj(x.X, d+1)
+					case *ssa.ChangeType:
+						proj(x.X, d+1)
+					case *ssa.MakeInterface:
+						proj(x.X, d+1)
+					case *ssa.Phi:
+						for _, e := range x.Edges {
+							proj(e, d+1)
+						}
+					}
+				}
+				proj(mu.Key, 0)
+				if len(objs) == 0 {
+					c.OK(rule, key, core.InstrPos(mu), "the key is not a projection of an object (a plain value)")
+					continue
+				}
+				// does the stored value depend on one of those objects other than through the key?
+				dep := ""
+				seenV := map[ssa.Value]bool{mu.Key: true}
+				var walk func(v ssa.Value, d int)
+				walk = func(v ssa.Value, d int) {
+					if v == nil || seenV[v] || dep != "" || d > 24 {
+						return
+					}
+					seenV[v] = true
+					for _, o := range objs {
+						if v == o {
+							// the receiver loads of a reader's own struct (r.field) are state, not the keyed object
+							if p, ok := o.(*ssa.Parameter); ok && f.Signature.Recv() != nil && len(f.Params) > 0 && p == f.Params[0] {
+								continue
+							}
+							dep = o.Name()
+							return
+						}
+					}
+					switch x := v.(type) {
+					case *ssa.Const, *ssa.Global, *ssa.Function, *ssa.Builtin, *ssa.Parameter, *ssa.FreeVar:
+						return
+					case *ssa.UnOp:
+						if x.Op == token.MUL {
+							if a, ok := x.X.(*ssa.Alloc); ok {
+								for _, r := range core.Referrers(a) {
+									if st, ok := r.(*ssa.Store); ok && st.Addr == a {
+										walk(st.Val, d+1)
+									}
+								}
+								return
+							}
+						}
+					}
+					if in, ok := v.(ssa.Instruction); ok {
+						for _, op := range in.Operands(nil) {
+							if *op != nil {
+								walk(*op, d+1)
+							}
+						}
+					}
+				}
+				walk(mu.Value, 0)
+				if dep != "" {
+					c.Bad(rule, key, core.InstrPos(mu), "the entry is keyed by a property of "+dep+" (a field / the result of a method called on it) but its value is computed from "+dep+" itself: another object with the same property is served this entry instead of its own result")
+				} else {
+					c.OK(rule, key, core.InstrPos(mu), "the stored value depends on the key only")
+				}
+			}
+		}
+	}
+	c.OK(rule, "memo tables", 0, fmt.Sprintf("%d consult-and-fill map site(s) in persistent state inspected in %v", n, pkgs))
+}
+
+func init() {
+	wrapRun("C05", func(c *core.Ctx) {
+		if c.CountRule("R05k") == 0 {
+			memoKeyProjection(c, "R05k", []string{"extensions/omniv21/fileformat/flatfile", "extensions/omniv21/fileformat/edi"})
+		}
+	})
+	wrapRun("C13", func(c *core.Ctx) {
+		if c.CountRule("R13i") == 0 {
+			memoKeyProjection(c, "R13i", []string{"idr", "extensions/omniv21", "customfuncs", ""})
+		}
+	})
+	wrapRun("C10", func(c *core.Ctx) {
+		if c.CountRule("R10o") == 0 {
+			memoKeyProjection(c, "R10o", []string{"idr", "extensions/omniv21", "customfuncs", ""})
+		}
+	})
+}
